@@ -1,0 +1,209 @@
+// Copyright 2025 The Go Authors. All rights reserved.
+// Use of this source code is governed by a BSD-style
+// license that can be found in the LICENSE file.
+
+//go:build verif
+
+package webdav
+
+import "path/filepath"
+
+// Contracts, spec functions and lemma harnesses for the deductive verifier in /verif (govc):
+// second batch for webdav (C45 for arbitrary Dir values, C44 memFile.Write, C47, C43).
+// This file is compiled only with -tags verif; it adds no behaviour to the package.
+
+// ---------------------------------------------------------------------------
+// C44: memFile.Write.
+//
+// Precondition beyond the representation invariant pos >= 0: pos + len(p) <= 2^40 (a sane bound on
+// the size of an in-memory file). Without it the unit does not verify: make([]byte, pos, pos+len(p))
+// panics for huge pos (defect F8, see lemmaF8WriteHugePos, kept out of the green set).
+//
+// A directory cannot be written. Otherwise all of p is written at pos: the file length becomes
+// max(old length, pos+len(p)); the bytes at [pos, pos+len(p)) are p; bytes before pos that existed
+// are kept; a hole between the old end and pos reads as zero; bytes behind the written range are
+// kept; pos advances by len(p); the result is (len(p), nil).
+//
+//@ func (*memFile).Write(f, p) (n, err)
+//@   requires f != nil && f.n != nil && f.pos >= 0
+//@   requires f.pos <= 1<<40 - len(p)
+//@   requires !samebase(p, f.n.data)
+//@   ensures  f.n.mode.IsDir() ==> n == 0 && err == os.ErrInvalid && f.pos == old(f.pos) && len(f.n.data) == old(len(f.n.data))
+//@   ensures  forall k int :: f.n.mode.IsDir() && 0 <= k && k < len(f.n.data) ==> f.n.data[k] == old(f.n.data[k])
+//@   ensures  !f.n.mode.IsDir() ==> n == len(p) && err == nil && f.pos == old(f.pos) + len(p)
+//@   ensures  !f.n.mode.IsDir() ==> len(f.n.data) == max(old(len(f.n.data)), old(f.pos) + len(p))
+//@   ensures  forall k int :: !f.n.mode.IsDir() && 0 <= k && k < len(p) ==> f.n.data[old(f.pos)+k] == old(p[k])
+//@   ensures  forall k int :: !f.n.mode.IsDir() && 0 <= k && k < old(f.pos) && k < old(len(f.n.data)) ==> f.n.data[k] == old(f.n.data[k])
+//@   ensures  forall k int :: !f.n.mode.IsDir() && old(len(f.n.data)) <= k && k < old(f.pos) ==> f.n.data[k] == 0
+//@   ensures  forall k int :: !f.n.mode.IsDir() && old(f.pos) + len(p) <= k && k < old(len(f.n.data)) ==> f.n.data[k] == old(f.n.data[k])
+//@   cases f.pos < len(f.n.data) && len(p) <= len(f.n.data) - f.pos
+//@     else f.pos < len(f.n.data) && len(p) <= cap(f.n.data) - f.pos
+//@     else f.pos < len(f.n.data)
+//@     else f.pos == len(f.n.data) && len(p) <= cap(f.n.data) - f.pos
+//@     else f.pos == len(f.n.data)
+//@     else f.pos <= cap(f.n.data) && len(p) <= cap(f.n.data) - f.pos
+//@     else f.pos <= cap(f.n.data)
+//@   loop 1 invariant -1 <= rangeindex && rangeindex < len(hole)
+//@   loop 1 invariant forall k int :: 0 <= k && k <= rangeindex ==> hole[k] == 0
+//@   loop 1 invariant forall k int :: 0 <= k && k < oldLen ==> f.n.data[k] == old(f.n.data[k])
+//@   loop 1 modifies elems(hole)
+//@   modifies f.pos, f.n.data, f.n.modTime, elems(f.n.data), spare(f.n.data)
+//@   allocates
+
+// ---------------------------------------------------------------------------
+// C45 for EVERY Dir value (any spelling of the root: "/srv/dav/", "/srv//dav", "a/../b", "", "/").
+//
+// The root directory of a Dir d is filepath.Clean(string(d)) ("An empty Dir is treated as "."", and
+// Clean("") is "."). filepath.Clean carries the flag `function` (stdlib/01_dav2.contracts): the call
+// in Dir.RemoveAll / Dir.Rename and the call in specRoot below are the same term.
+
+// specRoot(d): the root directory of d, in clean form.
+//
+//@ pure
+func specRoot(d Dir) string {
+	return filepath.Clean(string(d))
+}
+
+// specInside(root, q): the native path that consists of the root directory followed by the elements
+// of the clean rooted slash path q (q is "/" or "/e1/e2..." with no element empty, "." or ".."):
+// the root itself when q is "/"; q below the file system root; q as a relative path below ".";
+// otherwise root, a separator and the elements.
+//
+//@ pure
+func specInside(root, q string) string {
+	if len(q) == 1 {
+		return root
+	}
+	if root == "/" {
+		return q
+	}
+	if root == "." {
+		return q[1:]
+	}
+	return root + q
+}
+
+// resolve: "" exactly when the name contains a NUL byte; otherwise exactly the root directory of d
+// followed by the elements of slashClean(name) - and slashClean(name) is a clean rooted path, so
+// that no "..", "." or empty element of the request survives (lemmaInsideRoot turns this into the
+// positional form: the result is the root or starts with root + "/", and has no ".." element behind
+// the root).
+//
+//@ func (Dir).resolve(d, name) (r)
+//@   usebody slashClean
+//@   cases len(d) == 0 else len(specSlashClean(name)) == 1 else specRoot(d) == "/" else specRoot(d) == "."
+//@   assert at call Join: len($elem) == 2 && ((len(d) == 0 && $elem[0] == ".") || (len(d) > 0 && $elem[0] == string(d))) && $elem[1] == specSlashClean(name)
+//@   ensures forall i int :: 0 <= i && i < len(name) && name[i] == 0 ==> r == ""
+//@   ensures r == "" ==> (exists i int :: 0 <= i && i < len(name) && name[i] == 0)
+//@   ensures r != "" ==> r == specInside(specRoot(d), specSlashClean(name))
+//@   ensures r != "" ==> ((r == specRoot(d)) <==> len(specSlashClean(name)) == 1)
+
+// lemmaInsideRoot: what "the root directory followed by the elements of q" means position by
+// position, for any root in the form filepath.Clean returns (non-empty, no trailing slash unless it is
+// "/") and any clean rooted q: r = specInside(root, q) is the root itself exactly when q is "/";
+// otherwise it is strictly inside the root:
+//   - ordinary root: r starts with root + "/" and behind the root every slash is followed by a
+//     non-empty element that is neither "." nor "..";
+//   - root "/": r is a clean rooted path other than "/";
+//   - root ".": r is a relative path (no leading slash) whose elements, the first included, are
+//     non-empty and neither "." nor ".." - it cannot climb out of the current directory.
+//
+//@ lemma
+//@ requires len(root) >= 1 && (len(root) > 1 ==> root[len(root)-1] != '/')
+//@ requires len(q) >= 1 && q[0] == '/' && (forall i int :: 0 <= i && i < len(q) && q[i] == '/' ==> (i+1 >= len(q) ==> len(q) == 1) && (i+1 < len(q) ==> q[i+1] != '/') && (i+1 < len(q) && q[i+1] == '.' ==> i+2 < len(q) && q[i+2] != '/') && (i+2 < len(q) && q[i+1] == '.' && q[i+2] == '.' ==> i+3 < len(q) && q[i+3] != '/'))
+//@ cases len(q) == 1 else root == "/" else root == "."
+//@ ensures r == specInside(root, q)
+//@ ensures (r == root) <==> len(q) == 1
+//@ ensures len(q) > 1 && root != "/" && root != "." ==> len(r) > len(root) + 1 && r[len(root)] == '/' && (forall i int :: 0 <= i && i < len(root) ==> r[i] == root[i])
+//@ ensures len(q) > 1 && root != "/" && root != "." ==> len(r) == len(root) + len(q) && (forall j int :: 0 <= j && j < len(q) ==> r[len(root)+j] == q[j])
+//@ ensures len(q) > 1 && root == "/" ==> len(r) > 1 && r[0] == '/' && (forall i int :: 0 <= i && i < len(r) && r[i] == '/' ==> (i+1 >= len(r) ==> len(r) == 1) && (i+1 < len(r) ==> r[i+1] != '/') && (i+1 < len(r) && r[i+1] == '.' ==> i+2 < len(r) && r[i+2] != '/') && (i+2 < len(r) && r[i+1] == '.' && r[i+2] == '.' ==> i+3 < len(r) && r[i+3] != '/'))
+//@ ensures len(q) > 1 && root == "." ==> len(r) >= 1 && r[0] != '/' && (r[0] == '.' ==> 1 < len(r) && r[1] != '/') && (r[0] == '.' && r[1] == '.' ==> 2 < len(r) && r[2] != '/')
+//@ ensures len(q) > 1 && root == "." ==> (forall i int :: 0 <= i && i < len(r) && r[i] == '/' ==> i+1 < len(r) && r[i+1] != '/' && (r[i+1] == '.' ==> i+2 < len(r) && r[i+2] != '/') && (r[i+1] == '.' && r[i+2] == '.' ==> i+3 < len(r) && r[i+3] != '/'))
+func lemmaInsideRoot(root, q string) (r string) {
+	return specInside(root, q)
+}
+
+// lemmaInsideRootAt: the ordinary-root case of lemmaInsideRoot position by position (i = len(root)+j
+// is any position behind the root): r[i] is q[i-len(root)], and a slash there is followed by a non-empty
+// element that is neither "." nor "..".
+//
+//@ lemma
+//@ requires len(root) >= 1 && (len(root) > 1 ==> root[len(root)-1] != '/') && root != "/" && root != "."
+//@ requires len(q) > 1 && q[0] == '/' && (forall i int :: 0 <= i && i < len(q) && q[i] == '/' ==> (i+1 >= len(q) ==> len(q) == 1) && (i+1 < len(q) ==> q[i+1] != '/') && (i+1 < len(q) && q[i+1] == '.' ==> i+2 < len(q) && q[i+2] != '/') && (i+2 < len(q) && q[i+1] == '.' && q[i+2] == '.' ==> i+3 < len(q) && q[i+3] != '/'))
+//@ requires 0 <= j && j < len(q)
+//@ ensures ok
+func lemmaInsideRootAt(root, q string, j int) (ok bool) {
+	r := specInside(root, q)
+	i := len(root) + j
+	if len(r) != len(root)+len(q) || r[i] != q[j] {
+		return false
+	}
+	if q[j] != '/' {
+		return true
+	}
+	if i+1 >= len(r) || r[i+1] == '/' {
+		return false
+	}
+	if r[i+1] != '.' {
+		return true
+	}
+	if i+2 >= len(r) || r[i+2] == '/' {
+		return false
+	}
+	if r[i+2] != '.' {
+		return true
+	}
+	return i+3 < len(r) && r[i+3] != '/'
+}
+
+// The five FileSystem methods of Dir, for every Dir value. Call-site conditions: every path handed
+// to the os package is exactly the root directory followed by the elements of slashClean(name)
+// (lexically inside the root, lemmaInsideRoot); os.RemoveAll and os.Rename never get the root
+// directory itself (filepath.Clean(d), "." for the empty Dir). The os package is entered exactly
+// when the name has no NUL byte (and, for RemoveAll/Rename, does not denote the root): a name with a
+// NUL byte yields os.ErrNotExist, the root yields os.ErrInvalid, both without any os call (ghost
+// counter oscalls).
+//
+//@ func (Dir).Mkdir(d, ctx, name, perm) (err)
+//@   ghost oscalls += 1 at call os.Mkdir
+//@   assert at call os.Mkdir: $name == specInside(specRoot(d), specSlashClean(old(name)))
+//@   ensures forall i int :: 0 <= i && i < len(name) && name[i] == 0 ==> err == os.ErrNotExist && ghost(oscalls) == 0
+//@   ensures ghost(oscalls) != 1 ==> ghost(oscalls) == 0 && err == os.ErrNotExist && (exists i int :: 0 <= i && i < len(name) && name[i] == 0)
+//@
+//@ func (Dir).OpenFile(d, ctx, name, flag, perm) (f, err)
+//@   ghost oscalls += 1 at call os.OpenFile
+//@   assert at call os.OpenFile: $name == specInside(specRoot(d), specSlashClean(old(name))) && $flag == flag && $perm == perm
+//@   ensures forall i int :: 0 <= i && i < len(name) && name[i] == 0 ==> err == os.ErrNotExist && f == nil && ghost(oscalls) == 0
+//@   ensures ghost(oscalls) != 1 ==> ghost(oscalls) == 0 && err == os.ErrNotExist && (exists i int :: 0 <= i && i < len(name) && name[i] == 0)
+//@   allocates
+//@
+//@ func (Dir).Stat(d, ctx, name) (fi, err)
+//@   ghost oscalls += 1 at call os.Stat
+//@   assert at call os.Stat: $name == specInside(specRoot(d), specSlashClean(old(name)))
+//@   ensures forall i int :: 0 <= i && i < len(name) && name[i] == 0 ==> err == os.ErrNotExist && fi == nil && ghost(oscalls) == 0
+//@   ensures ghost(oscalls) != 1 ==> ghost(oscalls) == 0 && err == os.ErrNotExist && (exists i int :: 0 <= i && i < len(name) && name[i] == 0)
+//@   allocates
+//@
+//@ func (Dir).RemoveAll(d, ctx, name) (err)
+//@   ghost oscalls += 1 at call os.RemoveAll
+//@   assert at call os.RemoveAll: $path == specInside(specRoot(d), specSlashClean(old(name)))
+//@   assert at call os.RemoveAll: $path != specRoot(d)
+//@   assert at call os.RemoveAll: len(specSlashClean(old(name))) > 1
+//@   ensures forall i int :: 0 <= i && i < len(name) && name[i] == 0 ==> err == os.ErrNotExist && ghost(oscalls) == 0
+//@   ensures len(specSlashClean(name)) == 1 ==> ghost(oscalls) == 0 && (err == os.ErrInvalid || err == os.ErrNotExist)
+//@   ensures ghost(oscalls) != 1 ==> ghost(oscalls) == 0 && ((err == os.ErrNotExist && (exists i int :: 0 <= i && i < len(name) && name[i] == 0)) || (err == os.ErrInvalid && len(specSlashClean(name)) == 1))
+//@
+//@ func (Dir).Rename(d, ctx, oldName, newName) (err)
+//@   ghost oscalls += 1 at call os.Rename
+//@   assert at call os.Rename: $oldpath == specInside(specRoot(d), specSlashClean(old(oldName)))
+//@   assert at call os.Rename: $newpath == specInside(specRoot(d), specSlashClean(old(newName)))
+//@   assert at call os.Rename: $oldpath != specRoot(d)
+//@   assert at call os.Rename: $newpath != specRoot(d)
+//@   assert at call os.Rename: len(specSlashClean(old(oldName))) > 1
+//@   assert at call os.Rename: len(specSlashClean(old(newName))) > 1
+//@   ensures forall i int :: 0 <= i && i < len(oldName) && oldName[i] == 0 ==> err == os.ErrNotExist && ghost(oscalls) == 0
+//@   ensures forall i int :: 0 <= i && i < len(newName) && newName[i] == 0 ==> err == os.ErrNotExist && ghost(oscalls) == 0
+//@   ensures len(specSlashClean(oldName)) == 1 || len(specSlashClean(newName)) == 1 ==> ghost(oscalls) == 0 && (err == os.ErrInvalid || err == os.ErrNotExist)
+//@   ensures ghost(oscalls) != 1 ==> ghost(oscalls) == 0 && (err == os.ErrNotExist || err == os.ErrInvalid)
+//@   ensures ghost(oscalls) != 1 && len(specSlashClean(oldName)) > 1 && len(specSlashClean(newName)) > 1 ==> err == os.ErrNotExist
+//@   ensures ghost(oscalls) != 1 && len(specSlashClean(oldName)) > 1 && len(specSlashClean(newName)) > 1 && (forall i int :: 0 <= i && i < len(oldName) ==> oldName[i] != 0) ==> (exists i int :: 0 <= i && i < len(newName) && newName[i] == 0)
